@@ -265,7 +265,12 @@ def run(ctx, rep):
     if nb is None:
         r.missing("regex_cache::RegexCache::new")
     else:
-        sites = [x for x in PN.collect(lib, PN.api_table()) if x.body is nb and x.kind == "call:cache_with_size"]
+        class _View:          # the analysed view (helpers new to the rules inlined), not the functions as written
+            pass
+        _v = _View()
+        _v.bodies = {nb.name: nb}
+        _v.raw_bodies = None
+        sites = [x for x in PN.collect(_v, PN.api_table()) if x.kind == "call:cache_with_size"]
         if not sites:
             r.bad("RegexCache::new#with_size", "no bounded cache is built (unrecognised idiom)", nb.where())
         for n, x in enumerate(sites):
